@@ -180,6 +180,11 @@ for _k, _s in {"C01": ("V1", 800), "C02": ("K1", 500), "C05": ("S1", 1200), "C07
                "C15": ("E1", 400), "C17": ("R1", 1500), "C16": ("L1", 800), "C04": ("F2", 1500)}.items():
     if not any(x[0] == _s[0] and len(x) > 2 and x[2].get("parallel") for x in PROPS[_k]["streams"]):
         PROPS[_k]["streams"] = PROPS[_k]["streams"] + [(_s[0], _s[1], {"parallel": 16, "configs": ["default", "purego"]})]
+# … and once more under the Go race detector, which reports unsynchronised sharing whether or not the interleaving corrupts a
+# result in this run (seed C07-m8: a nanosecond window between a copy into a shared buffer and its first use)
+for _k, _s in {"C01": ("V1", 300), "C02": ("K1", 200), "C03": ("G1", 300), "C07": ("X1", 400), "C11": ("T1", 300), "C14": ("H2", 300), "C15": ("E1", 200)}.items():
+    if not any(x[0] == _s[0] and len(x) > 2 and x[2].get("race") for x in PROPS[_k]["streams"]):
+        PROPS[_k]["streams"] = PROPS[_k]["streams"] + [(_s[0], _s[1], {"parallel": 16, "race": True, "configs": ["default"]})]
 NOT_YET = {}
 for _k, _c in PROPS.items():
     assert _c.get("configs_quick") and _c.get("configs_thorough"), "property %s lacks a configuration list" % _k
